@@ -8,7 +8,7 @@ import bcrun
 import lib
 
 OPS = ["load27", "load38", "load312", "load313", "load15", "loadnative", "dis27classic", "dis38xasm", "dis312ext", "dis313bytes",
-       "opc27", "opc313", "opc36pypy", "std36", "std312", "marsh", "loadcorrupt", "importgraal", "std27", "std27pypy", "marsh27a", "marsh27b", "loaddropbox"]
+       "opc27", "opc313", "opc36pypy", "std36", "std312", "marsh", "loadcorrupt", "importgraal", "std27", "std27pypy", "marsh27a", "marsh27b", "loaddropbox", "marshcode27"]
 
 RULE = ("one case = one history (sequence of public operations: load_module of 1.5/2.7/3.8/3.12/3.13 files via xdis's unmarshaller and via the "
         "native fast path, disassemble_file in four formats, get_opcode for three tables, make_std_api for two versions, marsh dumps+loads, "
